@@ -261,6 +261,13 @@ def sym_doc(eng, doc="main"):
     if doc == "noentries":
         # a library without a single entry (only @string / @preamble / comments + 2 symbolic characters)
         return mk(tuple("@string{s = {v}}\n@preamble{\"p\"}\n@comment{c}\nfree\n") + chars(eng.sym_str("t", 2, SIGMA_S)))
+    if doc == "single":
+        # a library of exactly ONE block (a shortcut for "nothing to do" must still hand out a copy)
+        k1 = eng.sym_str("k1_", 1, "ab")
+        nm = eng.sym_str("n", 1, "x,")
+        return mk(tuple("@a{") + chars(k1) + tuple(", author = {A and B") + chars(nm) + tuple("}, month = 1, T = x}"))
+    if doc == "empty":
+        return mk(chars(eng.sym_str("t", 1, " \n")))      # white space only: a library without any block
     k1 = eng.sym_str("k1_", 1, "ab")
     k2 = eng.sym_str("k2_", 1, "ab")
     tail = eng.sym_str("t", 2, SIGMA_S)
@@ -408,7 +415,7 @@ PREPS = {"raw": (), "default": ("resolve", "remove"), "separated": ("resolve", "
 
 def main():
     chk = Check("C07", __doc__)
-    chk.bounds = {"input libraries": "(also an entry-free document: @string, @preamble, @comment, free text + 2 symbolic characters) parse of '@string{s={v}} @a{K1, author={A and BN}, month=1, t=s} (N symbolic: a valid or an invalid name) @a{K2, T=x, t=y} @b{d, t=1, t=2}' + 2 symbolic characters, K1/K2 symbolic over {a,b}; as split, after the default stack, and after name separation + splitting (list / NameParts values)",
+    chk.bounds = {"input libraries": "(also a library of exactly one block '@a{K1, author={A and BN}, month=1, T=x}', a library without any block, and an entry-free document: @string, @preamble, @comment, free text + 2 symbolic characters) parse of '@string{s={v}} @a{K1, author={A and BN}, month=1, t=s} (N symbolic: a valid or an invalid name) @a{K2, T=x, t=y} @b{d, t=1, t=2}' + 2 symbolic characters, K1/K2 symbolic over {a,b}; as split, after the default stack, and after name separation + splitting (list / NameParts values)",
                   "middlewares": NAMES, "stacks": "every single middleware on every prepared input; " + ("all ordered pairs" if chk.tier == "thorough" else "selected pairs") + " on the default-stack input",
                   "allow_inplace_modification": "symbolic boolean"}
     chk.assumptions = ["exception objects stored in failed blocks are shared on purpose (immutables, exceptions.py); the walk does not count the error object itself but does follow its attributes",
@@ -436,6 +443,8 @@ def main():
     for name in NAMES:
         for pn in ("raw", "default"):
             chk.add_task(f"noentries-{pn}-{name}", task, prep=PREPS[pn], stack=(name,), doc="noentries")
+            chk.add_task(f"single-{pn}-{name}", task, prep=PREPS[pn], stack=(name,), doc="single")
+        chk.add_task(f"empty-raw-{name}", task, prep=PREPS["raw"], stack=(name,), doc="empty")
     pairs = pairs + [(n, "=") for n in NAMES]       # the same instance applied to its own result
     for a, b in pairs:
         prep = PREPS["default"]
